@@ -639,7 +639,9 @@ namespace Clipper2Lib {
     double epsilon, bool isClosedPath = true)
   {
     const size_t len = path.size(), high = len -1;
-    const double epsSqr = Sqr(epsilon);
+    // nb: the ends of open paths are protected by the pseudo distance MAX_DBL,
+    // so the squared tolerance has to stay below it (Sqr(epsilon) may be +inf)
+    const double epsSqr = (std::min)(Sqr(epsilon), MAX_DBL * 0.5);
     if (len < 3) return Path<T>(path);
 
     std::vector<bool> flags(len);
